@@ -120,7 +120,7 @@ theorem scanOpen_none {s : Sys} {w : Want} {sk : List Frame} {p cl : Option Nat}
     closed) and put everything back -/
 inductive Move (s s' : Sys) : Prop
   | hold (w : Want) (sk : List Frame) (p cl : Option Nat) (hcl : s.client = .waiting w sk p cl)
-      (hq : ∀ y ∈ s.queue, w.pred c y = false)
+      (ho : s.closed = false) (hq : ∀ y ∈ s.queue, w.pred c y = false)
       (e : s' = { s with queue := [], client := .waiting w (sk ++ s.queue) p cl })
   | take (w : Want) (sk : List Frame) (p cl : Option Nat) (pre : List Frame) (f : Frame) (post : List Frame)
       (hcl : s.client = .waiting w sk p cl) (hq : s.queue = pre ++ f :: post)
@@ -138,7 +138,7 @@ theorem clientRun_move (s : Sys) (w : Want) (sk : List Frame) (p cl : Option Nat
     cases hs : findSplit (w.pred c) s.queue with
     | none =>
       rw [scanOpen_none c hs]
-      exact .hold w sk p cl hcl ((findSplit_none_iff _ _).mp hs) rfl
+      exact .hold w sk p cl hcl ho ((findSplit_none_iff _ _).mp hs) rfl
     | some r =>
       obtain ⟨pre, f, post⟩ := r
       obtain ⟨e1, e2, e3⟩ := findSplit_sound _ hs
@@ -181,25 +181,25 @@ theorem fire_move (s : Sys) (target : Nat) : fire s target = s ∨ Move c s (fir
 
 theorem Move.buf {s s' : Sys} (h : Move c s s') : s'.buf = s.buf := by
   cases h with
-  | hold _ _ _ _ _ _ e => rw [e]
+  | hold _ _ _ _ _ _ _ e => rw [e]
   | take _ _ _ _ _ _ _ _ _ _ _ e => rw [e]; rfl
   | fail _ _ _ _ _ _ _ _ _ _ e => rw [e]; rfl
 
 theorem Move.out {s s' : Sys} (h : Move c s s') : s'.out = s.out := by
   cases h with
-  | hold _ _ _ _ _ _ e => rw [e]
+  | hold _ _ _ _ _ _ _ e => rw [e]
   | take _ _ _ _ _ _ _ _ _ _ _ e => rw [e]; rfl
   | fail _ _ _ _ _ _ _ _ _ _ e => rw [e]; rfl
 
 theorem Move.tr {s s' : Sys} (h : Move c s s') : s'.tr = s.tr := by
   cases h with
-  | hold _ _ _ _ _ _ e => rw [e]
+  | hold _ _ _ _ _ _ _ e => rw [e]
   | take _ _ _ _ _ _ _ _ _ _ _ e => rw [e]; rfl
   | fail _ _ _ _ _ _ _ _ _ _ e => rw [e]; rfl
 
 theorem Move.WF {s s' : Sys} (h : Move c s s') (hwf : WF c s) : WF c s' := by
   cases h with
-  | hold w sk p cl hcl hq e =>
+  | hold w sk p cl hcl _ hq e =>
     intro w2 sk2 p2 cl2 h2
     rw [e] at h2
     simp only [Client.waiting.injEq] at h2
